@@ -91,6 +91,7 @@ func tryBackends[T any](next nextBackendFunc, try func(log logr.Logger, backendA
 			var zero T
 			return backendAddr, log, zero, errAllBackendsFailed
 		}
+		verifhook.Event("lb.try", "backend", backendAddr)
 
 		log, t, err := try(log, backendAddr)
 		if err != nil {
